@@ -167,7 +167,14 @@ def setup_case(draw, method):
     nmin = 4 * (br + 1) * (l + r) + 2 * br + 3
     N = nmin + draw(st.integers(0, 400))
     amps = [[draw(st.floats(0.2, 5)), draw(st.floats(-math.pi, math.pi))] for _ in range(m)]
-    return {"sys": s, "refs": None if allref else refs, "br": br, "brmin": brmin, "N": N, "amps": amps, "method": method}
+    if r < l and draw(st.integers(0, 3)) == 0:
+        # one mode lives (almost) only at the reference channels: the other channels sit on its nodes
+        k = draw(st.integers(0, m - 1))
+        for c in range(l):
+            if c not in refs:
+                s["phi"][k][c] = [0.0, 0.0]
+    unc = method == "cov_mm" and draw(st.integers(0, 2)) == 0
+    return {"sys": s, "refs": None if allref else refs, "br": br, "brmin": brmin, "N": N + (200 if unc else 0), "amps": amps, "method": method, "unc": unc}
 
 
 def _kappa_data(Y, refs, br, m):
@@ -216,7 +223,10 @@ def judge_setup(case):
     Y0 = Y.copy()
     ss = SingleSetup(Y, fs=S.fs)
     cls = SSIcov if method == "cov_mm" else SSIdat
-    kw = dict(name="alg", br=br, ordmax=ordmax, ordmin=0, step=1, hc=dict(NEUTRAL_HC), sc=dict(NEUTRAL_SC), calc_unc=False)
+    unc = bool(case.get("unc"))
+    kw = dict(name="alg", br=br, ordmax=ordmax, ordmin=0, step=1, hc=dict(NEUTRAL_HC), sc=dict(NEUTRAL_SC), calc_unc=unc, nb=4)
+    if unc:
+        j.tag("calc_unc")
     if method == "cov_mm":
         kw["method"] = "cov_mm"
     if case["refs"] is not None:
@@ -226,6 +236,11 @@ def judge_setup(case):
         return j
     r = sut(ss.add_algorithms, alg)
     r2 = sut(ss.run_by_name, "alg")
+    if unc and raised(r2) and r2.type == "LinAlgError":
+        # the sensitivity matrices of the uncertainty propagation can be singular for noise-free (exactly rank-deficient)
+        # Hankel matrices; uncertainties are C17's subject, the identification itself is judged without them
+        j.skip("uncertainty-propagation-singular-on-noise-free-data")
+        return j
     if not j.check(not raised(r) and not raised(r2), "run-raises", lambda: f"{r!r} {r2!r}"):
         return j
     res = alg.result
